@@ -9,6 +9,8 @@ def px(e, o="self", loops=None):
         return ppath(e["p"], o)
     if t == "lit":
         return repr(e["v"])
+    if t == "g":
+        return e["n"]
     if t == "slit":
         return "vsc.signed(%d%s)" % (e["v"], (", %d" % e["w"]) if "w" in e else "")
     if t == "ulit":
@@ -136,6 +138,9 @@ def program_source(prog):
         for (n, v) in e["items"]:
             out.append("    %s = %d" % (n, v))
         out.append("")
+    for g_ in prog.get("globals", []):
+        out.append("%s = vsc.%s%s_t(%d)   # stand-alone field" % (
+            g_["n"], "rand_" if g_.get("r") else "", "int" if g_.get("s") else "bit", g_["w"]))
     for c in prog.get("classes", []):
         out.append("@vsc.randobj")
         out.append("class %s%s:" % (c["name"], ("(%s)" % c["base"]) if c.get("base") else ""))
